@@ -123,7 +123,8 @@ def rows_from_tlc(ctx, cfg):
             continue
         seen.add(k)
         cl = [o[x] for x in ("a", "b", "c") if x in o]
-        rows.append({"op": o["op"], "arg": [class_val(c) for c in cl], "cls": [c["n"] for c in cl], "src": "tlc"})
+        rows.append({"op": o["op"], "arg": [class_val(c) for c in cl], "cls": [c["n"] for c in cl], "src": "tlc",
+                     "kind": o["kind"], "keep": o.get("keep")})
     ctx.log("TLC %s: %d rows enumerated (%d states)" % (cfg, len(rows), r.distinct))
     return rows
 
@@ -149,7 +150,7 @@ def random_rows(rng, n):
             args[1] = rng.choice([0, 1, 2, 7, 8, 62, 63, 64, 65, 127, 128, 191, 192, 193, 254, 255, 256, 257, 300, -1])
         if op in ("DIV", "MOD") and rng.random() < 0.3:
             args[1] = rng.choice([-1, 1, -2, 2, 3, -3, 2 ** 63, -2 ** 63, 0])
-        rows.append({"op": op, "arg": args, "cls": ["rnd"] * k, "src": "random"})
+        rows.append({"op": op, "arg": args, "cls": ["rnd"] * k, "src": "random", "kind": "rnd", "keep": None})
     return rows
 
 
@@ -231,6 +232,7 @@ CONSTANTS
   SmallShrCount = 12
   Range <- RangeTiny
   ClassSet <- ClassesCore
+  AliasSet <- ClassesAlias
   CoreSet <- CoreTiny
 INVARIANT LimbsOK
 CONSTRAINT BitOut
@@ -260,6 +262,8 @@ def tla_bool(b):
 def row_expr(t, limb_res):
     """t = (op, args tuple, gf, gv)"""
     op, args, gf, gv = t
+    if op == "KEPT":        # "operands are values": the kept reference still denotes the operand
+        return "Kept(%s, %s)" % (lit(args[0]), lit(gv))
     if op in BITOPS:
         a, b = args
         if fits(a) and fits(b):
@@ -336,3 +340,17 @@ def run_apalache_jobs(ctx, jobs, workers):
         for name, st, wall, cmd in ex.map(one, jobs):
             res[name] = (st, wall, cmd)
     return res
+
+
+def run_alias(ctx, binary, rows):
+    fin = os.path.join(ctx.scratch, "int-alias.in.json")
+    fout = os.path.join(ctx.scratch, "int-alias.out.ndjson")
+    vf.write_json(fin, {"rows": [{"id": r["id"], "op": r["op"], "arg": [str(a) for a in r["arg"]], "keep": r["keep"]} for r in rows]})
+    rc, out = ctx.run_bin(binary, "TestVerifIntAlias", env={"VERIF_IN": fin, "VERIF_OUT": fout}, timeout=600)
+    if rc != 0:
+        ctx.infra("harness TestVerifIntAlias failed rc=%s" % rc)
+        return []
+    obs = vf.read_ndjson(fout)
+    if len(obs) != len(rows):
+        ctx.infra("harness TestVerifIntAlias produced %d observations for %d rows" % (len(obs), len(rows)))
+    return obs
